@@ -57,17 +57,25 @@ def showReplay (s : Shard) (wmem : List Nat) (nt : Nat) (q : Sel) : String :=
   -- the first one: deduplication by id inside each flow is deterministic
   s!"ilv:{joinK (dedupK [] (memFlow s q))}|{joinK (dedupK [] seg)}"
 
+/-- With several event types the numeric label of a compaction output depends on hash-map order
+in the planner: directories above level 0 are then shown as `level * 10000 + rank in the level`. -/
+def shownLabel (labels : List Nat) (nt id : Nat) : Nat :=
+  if nt ≤ 1 || id < levelSpan then id
+  else (id / levelSpan) * levelSpan + (labels.filter fun l => l / levelSpan == id / levelSpan && l < id).length
+
 def showLay (z : Nat) (s : Shard) (nt : Nat) : String :=
   let labels := sortNat ((s.segs.map (·.1)).eraseDups)
+  let shown := labels.filter fun id => (List.range nt).any fun ty => !(segZones z s id ty).isEmpty
   let parts := labels.flatMap fun id => (List.range nt).filterMap fun ty =>
     let zs := segZones z s id ty
-    if zs.isEmpty then none else some s!"{id}.{ty}={"/".intercalate (zs.map joinK)}"
+    if zs.isEmpty then none else some s!"{shownLabel shown nt id}.{ty}={"/".intercalate (zs.map joinK)}"
   if parts.isEmpty then "lay:-" else "lay:" ++ " ".intercalate parts
 
 structure St where
   s : Shard
   wmem : List Nat
   obs : List String
+  loose : Bool := false
 
 def answerHist (hd : List String) (toks : List String) : String :=
   match hd with
@@ -84,12 +92,14 @@ def answerHist (hd : List String) (toks : List String) : String :=
             | .flushCmd => []
             | _ => st.wmem
           { st with s := s', wmem := wmem }
-        | .compact => { st with s := compactRoundR z (drainAll st.s) }
-        | .ls => { st with obs := showLs st.s nt :: st.obs }
+        -- with several event types the shared executor compares only the WAL part of listings after
+        -- a round (`loose`, see `Snel.ShardProto.answerWith`)
+        | .compact => { st with s := compactRoundR z (drainAll st.s), loose := st.loose || decide (1 < nt) }
+        | .ls => { st with obs := (if st.loose then showLsWal st.s else showLs st.s nt) :: st.obs }
         | .lay => { st with obs := showLay z st.s nt :: st.obs }
         | .clock => st
         | .replay q => { st with obs := showReplay st.s st.wmem nt q :: st.obs })
-        ⟨Shard.init cap km, [], []⟩
+        ⟨Shard.init cap km, [], [], false⟩
       " ; ".intercalate st.obs.reverse
     | _, _, _, _, _ => "bad-op"
   | _ => "bad-op"
